@@ -70,7 +70,7 @@ class Contracts:
                     raise Undecided("%s:%d: bad section header" % (fname, ln))
                 item, anchor = parts[0], parts[1:]
                 a0 = anchor[0]
-                if a0 in ("ret", "t8", "t8p", "t8o", "t10", "foriter", "external", "skip_body", "trait", "rename", "strip_mut", "t14", "nocanary", "effects", "effects_pass", "effects_sig", "crashpoints"):
+                if a0 in ("ret", "t8", "t8p", "t8o", "t10", "foriter", "external", "skip_body", "trait", "rename", "strip_mut", "t14", "nocanary", "effects", "effects_pass", "effects_sig", "crashpoints", "t20_calls"):
                     self.flags.setdefault(item, {}).setdefault(a0, []).append(anchor[1:])
                     cur = None
                     continue
@@ -189,6 +189,19 @@ class Edit:
             text = text.encode()
         self.rep.append((a, b, text))
 
+    def split(self, a, b):
+        """take the operations that lie inside [a, b] out of this Edit and return them as a new one (T20: the text of an
+        async block / closure body is emitted somewhere else, with the edits that belong to it)"""
+        inner = Edit()
+        inner.ins = [i for i in self.ins if a <= i[0] <= b]
+        inner.rep = [r for r in self.rep if a <= r[0] and r[1] <= b]
+        self.ins = [i for i in self.ins if not (a <= i[0] <= b)]
+        self.rep = [r for r in self.rep if not (a <= r[0] and r[1] <= b)]
+        for r in self.rep:
+            if r[0] < b and a < r[1]:
+                raise Undecided("T20: an edit straddles the boundary of an async block")
+        return inner
+
     def apply(self, data, start, end):
         """apply to data[start:end]; offsets are absolute in data"""
         ops = []
@@ -306,9 +319,71 @@ def emit_fn(data, it, ckey, C, tlog, anchors_used, canary=False):
     loops = {l["ord"]: l for l in f["loops"]}
     known = set()
     sect = C.sections.get(ckey, {})
+    # T20: actor future chains `async move { B }.into_actor(self).map(|r, act, ctx| M).wait(ctx)`.  Verus has no model of async
+    # BLOCKS (generator types), only of `async fn`.  Each chain listed in the sidecar (`chain K`: the captured variables with their
+    # types, the block's result type) is lambda-lifted mechanically: the block body becomes the body of an associated
+    # `async fn vx_async_<fn>_<K>(captures)`, and the chain expression becomes
+    # `{ let r = Self::vx_async_<fn>_<K>(captures).await; let act = &mut *self; let ctx = &mut *ctx; M }` in a function that is
+    # made `async`.  This is actix' meaning of `wait`: the actor handles no other message until the future has resolved and its
+    # `map` closure has run with the actor (A-WAIT), given that nothing with an effect follows the chain in the same handler (checked).
+    chain_cfg = {}
+    for key in sect:
+        kp = key.split()
+        if kp[0] == "chain" and len(kp) == 2:
+            cfg = {"captures": "", "returns": "()", "env": ""}
+            for line in sect[key].splitlines():
+                ls = line.strip()
+                if ls.startswith("captures"):
+                    cfg["captures"] = ls[len("captures"):].strip()
+                elif ls.startswith("env"):
+                    # the types of the handler's locals that a block MAY capture; which of them it does capture is read off the block
+                    cfg["env"] += ("," if cfg["env"] else "") + ls[len("env"):].strip()
+                elif ls.startswith("returns"):
+                    cfg["returns"] = ls[len("returns"):].strip()
+                elif ls and not ls.startswith("//"):
+                    raise Undecided("bad line in `chain` section of %s: %s" % (ckey, ls))
+            chain_cfg[int(kp[1])] = cfg
+            anchors_used.add(key)
+    chains = f.get("chains", [])
+    allowed_encl = set()
+    for K in chain_cfg:
+        if K < 1 or K > len(chains):
+            raise Undecided("lost anchor: actor future chain %d of %s (function now has %d)" % (K, it["path"], len(chains)))
+        ch = chains[K - 1]
+        if ch["encl"]:
+            raise Undecided("unsupported construct: actor future chain %d of %s is itself inside a closure / async block" % (K, it["path"]))
+        if ch["final"] != "wait":
+            raise Undecided("unsupported construct: actor future chain %d of %s ends in `.%s(..)`, not `.wait(..)` (other messages may interleave)" % (K, it["path"], ch["final"]))
+        if len(ch["maps"]) > 1:
+            raise Undecided("unsupported construct: actor future chain %d of %s has %d `map` stages" % (K, it["path"], len(ch["maps"])))
+        if not ch["async_block"].get("is_move"):
+            raise Undecided("unsupported construct: actor future chain %d of %s: the async block is not `move`" % (K, it["path"]))
+        allowed_encl.add((ch["async_block"]["start"], ch["async_block"]["end"]))
+        for m_ in ch["maps"]:
+            allowed_encl.add((m_["start"], m_["end"]))
+
+    def in_foreign_closure(c_):
+        """inside a closure / async block that T20 does not dissolve"""
+        en = c_.get("encl")
+        if en is None:
+            return bool(c_.get("in_closure"))
+        return any(tuple(x) not in allowed_encl for x in en)
+
+    def chain_of(c_):
+        """(K, 'block' | 'map') when the node lies in a dissolved chain, else None"""
+        for K in chain_cfg:
+            ch = chains[K - 1]
+            if ch["async_block"]["start"] <= c_["start"] and c_["end"] <= ch["async_block"]["end"]:
+                return (K, "block")
+            for m_ in ch["maps"]:
+                if m_["start"] <= c_["start"] and c_["end"] <= m_["end"]:
+                    return (K, "map")
+        return None
+
+    t20_names = set(x for fl in C.flag(ckey, "t20_calls") for x in fl)
     for key, text in sect.items():
         parts = key.split()
-        if parts[0] in ("spec", "attrs", "entry", "crash_inv", "crash_pre"):
+        if parts[0] in ("spec", "attrs", "entry", "crash_inv", "crash_pre", "chain"):
             continue
         if parts[0] == "subst":
             # T18: literal expression rewrites `FROM => TO` (one per line) for spellings Verus cannot type (e.g. the
@@ -416,7 +491,7 @@ def emit_fn(data, it, ckey, C, tlog, anchors_used, canary=False):
             # the statement that holds the K-th call (source order of the call expressions' start) of a function / method
             # named NAME, at any nesting depth: `after_call remove_config 1`
             nm, k = parts[1], int(parts[2]) if len(parts) > 2 else 1
-            cands = sorted([c for c in f.get("calls", []) if c["name"] == nm and not c.get("in_closure")], key=lambda c: c["start"])
+            cands = sorted([c for c in f.get("calls", []) if c["name"] == nm and not in_foreign_closure(c)], key=lambda c: c["start"])
             if k < 1 or k > len(cands):
                 raise Undecided("lost anchor: call #%d of `%s` in %s (there are %d)" % (k, nm, it["path"], len(cands)))
             st = cands[k - 1].get("stmt")
@@ -473,7 +548,7 @@ def emit_fn(data, it, ckey, C, tlog, anchors_used, canary=False):
         ed.insert(f["inputs"][-1]["end"], ", Tracked(vx_log): Tracked<&mut VxLog>", order=-2)
         nw = npass = 0
         for c in f.get("calls", []):
-            if c.get("in_closure"):
+            if in_foreign_closure(c):
                 if c["name"] in eff_names or c["name"] in pass_names:
                     raise Undecided("unsupported construct: effectful call `%s` inside a closure / async block of %s" % (c["name"], it["path"]))
                 continue
@@ -490,8 +565,11 @@ def emit_fn(data, it, ckey, C, tlog, anchors_used, canary=False):
                 nw += 1
             elif c["name"] in pass_names:
                 if not c["args"]:
-                    raise Undecided("T17: `%s` call without arguments in %s" % (c["name"], it["path"]))
-                ed.insert(c["args"][-1]["end"], ", Tracked(vx_log)", order=-2)
+                    if data[c["end"] - 1:c["end"]] != b")":
+                        raise Undecided("T17: `%s` call without arguments in %s" % (c["name"], it["path"]))
+                    ed.insert(c["end"] - 1, "Tracked(vx_log)", order=-2)
+                else:
+                    ed.insert(c["args"][-1]["end"], ", Tracked(vx_log)", order=-2)
                 npass += 1
         tlog.append({"t": "T17", "item": it["path"], "wrapped_calls": nw, "passed_on": npass,
                      "note": "ghost effect log threaded through the signature; message arguments of %s wrapped in vx_note(&RECEIVER, ARG, log) (run-time identity on ARG; the receiver must be a plain field path / local)" % sorted(eff_names)})
@@ -549,6 +627,120 @@ def emit_fn(data, it, ckey, C, tlog, anchors_used, canary=False):
     for m in re.finditer(rb"^[ \t]*//![^\n]*\n", body, re.M):
         ed.replace(f["body_open"] + m.start(), f["body_open"] + m.end(), b"\n")
         tlog.append({"t": "T12", "item": it["path"]})
+    has_log = bool(eff_names or pass_names or C.flag(ckey, "effects_sig"))
+    lifted = []
+    make_async = False
+    if t20_names:
+        # calls of functions that T20 turned into `async fn`s are awaited (they run their future chain in line, A-WAIT)
+        n_aw = 0
+        for c in f.get("calls", []):
+            if c["name"] in t20_names and not in_foreign_closure(c):
+                ed.insert(c["end"], ".await", order=-1)
+                n_aw += 1
+            elif c["name"] in t20_names:
+                raise Undecided("unsupported construct: call of `%s` inside a closure / async block of %s" % (c["name"], it["path"]))
+        if n_aw == 0:
+            raise Undecided("lost anchor: no call of %s in %s" % (sorted(t20_names), it["path"]))
+        make_async = True
+        tlog.append({"t": "T20", "item": it["path"], "awaited_calls": n_aw,
+                     "note": "calls of %s (functions whose actor future chain is run in line) are awaited; the function is made `async`" % sorted(t20_names)})
+    for K in sorted(chain_cfg, reverse=True):
+        ch = chains[K - 1]
+        cfg = chain_cfg[K]
+        blk = ch["async_block"]
+        # A-WAIT order: what follows the chain in the same handler runs BEFORE the future in the real program
+        for c in f.get("calls", []):
+            if c["start"] >= ch["end"] and chain_of(c) is None and (c["name"] in eff_names or c["name"] in pass_names or c["name"] in t20_names):
+                raise Undecided("unsupported construct: effectful call `%s` after the `.wait(..)` chain %d of %s (it would run before the future)" % (c["name"], K, it["path"]))
+        lname = "vx_async_%s_%d" % (f["name"], K)
+        ltail = C.get(ckey, "chain %d before_tail" % K)
+        if ltail is not None:
+            if not ch.get("block_tail"):
+                raise Undecided("lost anchor: tail expression of the async block of chain %d of %s" % (K, it["path"]))
+            anchors_used.add("chain %d before_tail" % K)
+        inner = ed.split(blk["body_open"] + 1, blk["body_close"])
+        btxt = inner.apply(data, blk["body_open"] + 1, blk["body_close"])
+        caps = [x.strip() for x in split_top(cfg["captures"]) if x.strip()]
+        for ev in [x.strip() for x in split_top(cfg["env"]) if x.strip()]:
+            mm = re.match(r"^(?:mut\s+)?([A-Za-z_][A-Za-z0-9_]*)\s*:", ev)
+            if not mm:
+                raise Undecided("bad env entry `%s` in chain %d of %s" % (ev, K, ckey))
+            if mm.group(1) in ch.get("idents", []):
+                caps.append(ev)
+        cap_names = []
+        for c_ in caps:
+            mm = re.match(r"^(?:mut\s+)?([A-Za-z_][A-Za-z0-9_]*)\s*:", c_)
+            if not mm:
+                raise Undecided("bad capture `%s` in chain %d of %s" % (c_, K, ckey))
+            cap_names.append(mm.group(1))
+        params = ", ".join(caps + (["Tracked(vx_log): Tracked<&mut VxLog>"] if has_log else []))
+        args = ", ".join(cap_names + (["Tracked(vx_log)"] if has_log else []))
+        def cond_lines(txt):
+            """lines `?NAME rest` are kept (as `rest`) only when NAME is among the captured variables, `?!NAME rest` only when it is not:
+            a clause about a variable can only be stated when the block has it"""
+            out_ = []
+            for ln_ in txt.splitlines():
+                mm_ = re.match(r"^(\s*)\?(!?)([A-Za-z_][A-Za-z0-9_]*)\s(.*)$", ln_)
+                if mm_:
+                    if (mm_.group(3) in cap_names) != bool(mm_.group(2)):
+                        out_.append(mm_.group(1) + mm_.group(4))
+                else:
+                    out_.append(ln_)
+            return "\n".join(out_) + ("\n" if txt.endswith("\n") else "")
+        if ltail is not None:
+            inner.insert(ch["block_tail"]["start"], cond_lines(ltail), order=0)
+            btxt = inner.apply(data, blk["body_open"] + 1, blk["body_close"])
+        lspec = cond_lines(C.get(ckey, "chain %d spec" % K) or "")
+        lentry = cond_lines(C.get(ckey, "chain %d entry" % K) or "")
+        if lspec:
+            anchors_used.add("chain %d spec" % K)
+        if lentry:
+            anchors_used.add("chain %d entry" % K)
+        lifted.append(("// T20: body of the `async move` block of actor future chain %d of %s, lambda-lifted (captures become parameters)\n"
+                       "async fn %s(%s) -> (r: %s)\n%s{\n%s" % (K, f["name"], lname, params, cfg["returns"], lspec, lentry)).encode() + btxt + b"\n    }\n")   # (indented: a `}` in column 0 ends the impl for the diagnostics' line map)
+        # the chain expression in the handler
+        call = "%s%s(%s).await" % ("Self::" if it["kind"] == "impl_fn" else "", lname, args)
+        if ch["maps"]:
+            m_ = ch["maps"][0]
+            mb = m_["body"]
+            minner = ed.split(mb["start"], mb["end"])
+            mtxt = minner.apply(data, mb["start"], mb["end"]).decode()
+            ps = [p_["text"] for p_ in m_["params"]]
+            if len(ps) != 3:
+                raise Undecided("unsupported construct: `map` closure of chain %d of %s takes %d parameters" % (K, it["path"], len(ps)))
+            rep = "{ let %s = %s; let %s = &mut *self; let %s = &mut *%s; %s }" % (ps[0], call, ps[1], ps[2], ch["final_arg"], mtxt)
+        else:
+            rep = "{ let _ = %s; }" % call
+        # nothing else may have been planned inside the chain expression
+        leftovers = ed.split(ch["start"], ch["end"])
+        if leftovers.ins or leftovers.rep:
+            raise Undecided("T20: edits inside actor future chain %d of %s outside its block / map bodies" % (K, it["path"]))
+        ed.replace(ch["start"], ch["end"], rep)
+        make_async = True
+        tlog.append({"t": "T20", "item": it["path"], "chain": K, "lifted_fn": lname, "captures": caps, "block_sha256_16": sha(data[blk["start"]:blk["end"]]),
+                     "note": "`async move {B}.into_actor(self).map(|r, act, ctx| M).wait(ctx)` -> `{ let r = %s(captures).await; let act = &mut *self; let ctx = &mut *ctx; M }`; "
+                             "B is the verbatim block body; the function is made `async` (A-WAIT: actix runs the future and its map closure before the next message; nothing effectful follows the chain)" % lname})
+    if make_async and not f.get("is_async"):
+        ed.insert(f["sig_start"], "async ", order=-9)
+    if make_async and f["ret"] is None:
+        # measured: this Verus drops the `ensures` of an `async fn` that returns `()` at its `.await` sites (a non-unit result keeps
+        # them).  A unit handler that T20 made async therefore returns the one-value type `VxDone`: `-> (vx_done: VxDone)`, the body
+        # becomes `{ { BODY }; VxDone::Done }`, every bare `return;` of the handler becomes `return VxDone::Done;`.
+        ed.insert(f["body_open"], " -> (vx_done: VxDone) ", order=-8)
+        ed.insert(f["body_open"] + 1, " { ", order=-20)
+        ed.insert(f["body_close"], " }; VxDone::Done ", order=90)
+        nret = 0
+        for r_ in f["returns"]:
+            where = chain_of(r_)
+            if in_foreign_closure(r_) or (where and where[1] == "block"):
+                continue
+            if where and where[1] == "map":
+                raise Undecided("unsupported construct: `return` inside the `map` closure of an actor future chain of %s" % it["path"])
+            if data[r_["start"]:r_["end"]].strip() != b"return":
+                raise Undecided("unsupported construct: `return` with a value in the unit function %s" % it["path"])
+            ed.insert(r_["end"], " VxDone::Done", order=-3)
+            nret += 1
+        tlog.append({"t": "T20", "item": it["path"], "note": "unit result of the now-async handler replaced by the one-value type VxDone (%d bare `return;` rewritten): Verus keeps the contract of an async fn only when its result is not `()`" % nret})
     if C.flag(ckey, "skip_body"):
         # contract proved in another unit: only the signature + contract are emitted here
         ed2 = Edit()
@@ -563,6 +755,25 @@ def emit_fn(data, it, ckey, C, tlog, anchors_used, canary=False):
         out = re.sub(rb"\bfn\s+" + f["name"].encode() + rb"\b", b"fn " + f["name"].encode() + b"_vxcanary", out, count=1)
     if pre_attrs:
         out = pre_attrs.encode() + out
+    if lifted and not canary:
+        out = out + b"\n" + b"\n".join(reversed(lifted))
+    return out
+
+
+def split_top(s):
+    """split at commas that are not nested in <>, (), []"""
+    out, depth, cur = [], 0, ""
+    for ch in s:
+        if ch in "<([":
+            depth += 1
+        elif ch in ">)]":
+            depth -= 1
+        if ch == "," and depth == 0:
+            out.append(cur)
+            cur = ""
+        else:
+            cur += ch
+    out.append(cur)
     return out
 
 
